@@ -8,6 +8,7 @@ Design rules that keep the generated programs inside *specified* Go behaviour:
   * integers stay small (results are reduced modulo 97 after multiplications);
   * every printed value is an int, bool or string literal.
 """
+import os
 import random
 
 V = lambda x: ("var", x)
@@ -115,6 +116,18 @@ class Gen:
         r = self.r
         bools = [x for x, t in sc.items() if t == "bool"]
         c = r.random()
+        if depth > 0 and c < 0.12:
+            # comparison of whole structs / arrays
+            stys = []
+            for t in sc.values():
+                if isinstance(t, tuple) and t[0] == "struct" and "[" not in t[1] and t not in stys:
+                    stys.append(t)
+            for ty in [ARR] + stys:
+                xs = [x for x, t in sc.items() if t == ty]
+                if len(xs) >= 2 and r.random() < 0.7:
+                    a, b = r.sample(xs, 2)
+                    self.features.add("composite-equality")
+                    return ("bin", r.choice(["==", "!="]), V(a), V(b))
         if depth <= 0 or c < 0.5:
             return ("bin", r.choice(["<", "<=", "==", "!=", ">", ">="]), self.int_expr(sc, 1), self.int_expr(sc, 1))
         if c < 0.6 and bools:
@@ -145,21 +158,21 @@ class Gen:
     def weights(self):
         base = {"decl": 5, "assign": 6, "print": 5, "if": 4, "for": 3, "rangeint": 2, "rangearr": 2, "switch": 2, "call": 4,
                 "closure": 3, "defer": 1, "panic": 0.4, "return": 0.6, "break": 1, "continue": 1, "swap": 2, "ptr": 2, "struct": 2,
-                "method": 2, "iface": 2, "generic": 2, "rangefunc": 2, "zerodecl": 2, "deferafter": 0, "defersandwich": 0, "fault": 0, "recoverblock": 0.5, "goexit": 0, "gowait": 0.2, "arrset": 2}
+                "method": 2, "iface": 2, "generic": 2, "rangefunc": 2, "zerodecl": 2, "gotoloop": 1.5, "typeswitch": 2, "deferafter": 0, "defersandwich": 0, "fault": 0, "recoverblock": 0.5, "goexit": 0, "gowait": 0.2, "arrset": 2}
         if self.profile == "defer":
             base.update({"defer": 9, "panic": 2.5, "return": 2, "recoverblock": 4, "fault": 1.5, "goexit": 0.6, "gowait": 1.0,
-                         "closure": 1, "switch": 0.5, "rangearr": 0.5, "struct": 0.5, "method": 0.5, "iface": 0.3, "generic": 0.4, "rangefunc": 3, "deferafter": 3, "defersandwich": 2})
+                         "closure": 1, "switch": 0.5, "rangearr": 0.5, "struct": 0.5, "method": 0.5, "iface": 0.3, "generic": 0.4, "rangefunc": 3, "deferafter": 3, "defersandwich": 2, "gotoloop": 2.5, "typeswitch": 0.5})
         if self.profile == "faults":
             base.update({"fault": 6, "recoverblock": 5, "defer": 3, "panic": 1, "ptr": 3})
         if self.in_lib(self.cur_fi):
-            base.update({"struct": 0, "method": 0, "iface": 0, "generic": 0, "rangefunc": 0})
+            base.update({"struct": 0, "method": 0, "iface": 0, "generic": 0, "rangefunc": 0, "typeswitch": 0})
         return base
 
     def stmt(self, sc, fi, depth, ctx):
         r = self.r
         w = self.weights()
         if depth <= 0:
-            for k in ("if", "for", "rangeint", "rangearr", "rangefunc", "switch", "closure", "recoverblock", "gowait", "defersandwich"):
+            for k in ("if", "for", "rangeint", "rangearr", "rangefunc", "switch", "closure", "recoverblock", "gowait", "defersandwich", "gotoloop", "typeswitch"):
                 w[k] = 0
         if not ctx.get("loop"):
             w["break"] = w["continue"] = 0
@@ -343,6 +356,62 @@ class Gen:
             else:
                 mid = ("defer", ("call", ("fn", self.helper_name("dp", self.cur_fi)), [I(5), I(5)]))
             return [loop(1), mid, loop(2)]
+        if k == "typeswitch":
+            self.ensure_types()
+            self.features.add("type-switch")
+            P, Q, R_ = self.pf + "P", self.pf + "Q", self.pf + "R"
+            I_ = self.pf + "Sh"
+            which = r.choice(["P", "R", "Q", "nil"])
+            iv = self.var("sh")
+            pre = []
+            if which == "nil":
+                pre.append(("decl", iv, ("iface", I_), None))
+            else:
+                tmp = self.var("o")
+                if which == "P":
+                    t, init = ("struct", P), ("mkstruct", P, [("a", self.int_expr(sc, 1)), ("b", I(r.randint(0, 5)))])
+                elif which == "R":
+                    t, init = ("struct", R_), ("mkstruct", R_, [("w", self.int_expr(sc, 1))])
+                else:
+                    t, init = ("struct", Q), ("mkstruct", Q, [("in", ("mkstruct", P, [("a", I(r.randint(0, 5))), ("b", I(2))])), ("c", self.int_expr(sc, 1))])
+                sc[tmp] = t
+                pre += [("decl", tmp, t, init), ("decl", iv, ("iface", I_), ("iface", I_, "*" + t[1], ("addr", V(tmp))))]
+            x = self.var("tv")
+            fld = {"P": "a", "R": "w", "Q": "c"}
+            order = r.sample(["P", "R", "Q", "nil"], r.randint(2, 4))
+            cases = []
+            for o in order:
+                if o == "nil":
+                    cases.append(("nil", None, [("print", [("str", "tn")])] + self.stmts(dict(sc), fi, depth - 1, 1, ctx)))
+                else:
+                    sname = {"P": P, "R": R_, "Q": Q}[o]
+                    body = [("print", [("str", "t" + o), ("field", ("deref", V(x), True), fld[o])]),
+                            ("assign", [("field", ("deref", V(x), True), fld[o])], [("bin", "+", ("field", ("deref", V(x), True), fld[o]), I(1))])]
+                    body += self.stmts(dict(sc), fi, depth - 1, 1, ctx)
+                    if r.random() < 0.3:
+                        body.append(("if", self.bool_expr(sc, 1), [("break", None)], []))
+                        body.append(("print", [("str", "tb")]))
+                    cases.append(("*" + sname, ("ptr", ("struct", sname)), body))
+            dflt = [("print", [("str", "td")])] if r.random() < 0.7 else None
+            return pre + [("typeswitch", x, V(iv), cases, dflt)]
+        if k == "gotoloop":
+            # a loop made of a label and a backward goto (one basic block when the body is straight-line code)
+            self.features.add("goto-loop")
+            cnt = self.var("g")
+            lab = self.label()
+            sc[cnt] = "int"
+            body = self.stmts(dict(sc), fi, depth - 1, 2, dict(ctx, loop=False, labels=[]))
+            if self.profile == "defer" or r.random() < 0.3:
+                body.append(("defer", ("call", ("fn", self.helper_name("dp", self.cur_fi)), [I(7), V(cnt)])))
+                self.features.add("defer")
+            n = r.randint(1, 3)
+            form = r.random()
+            tail = [("assign", [V(cnt)], [("bin", "+", V(cnt), I(1))])]
+            if form < 0.6:
+                tail.append(("if", ("bin", "<", V(cnt), I(n)), [("goto", lab)], []))
+            else:
+                tail.append(("if", ("bin", ">=", V(cnt), I(n)), [], [("goto", lab)]))
+            return [("decl", cnt, "int", I(0)), ("label", lab), ("block", body)] + tail
         if k == "zerodecl":
             # a declaration without initialiser is executed (and zeroes the variable) every time control passes it,
             # e.g. once per loop iteration: read it before writing it
@@ -420,7 +489,13 @@ class Gen:
         r = self.r
         self.features.add("defer")
         ints = [x for x, t in sc.items() if t == "int"]
-        kind = r.choice(["print", "print", "closure-result", "recover", "panic", "repanic", "closure-capture"] + list(self.extra_defer_kinds))
+        kinds = ["print", "print", "closure-result", "recover", "panic", "repanic", "closure-capture"] + list(self.extra_defer_kinds)
+        if ctx.get("inrf") and not os.path.exists("/opt/veriftools/go1.26.8/bin/go"):
+            # Go 1.24.0 resumes in the wrong place when a panic of the enclosing function is recovered by a call deferred
+            # from inside a range-over-func body (the loop body runs again, then the process crashes; fixed in later
+            # releases): with only that toolchain as reference such cases cannot be self-validated
+            kinds = [k for k in kinds if k not in ("recover", "repanic", "recover-helper", "inner-recovered-panic")]
+        kind = r.choice(kinds)
         f = ctx.get("fn")
         if kind == "print":
             return [("defer", ("call", ("fn", self.helper_name("dp", self.cur_fi)), [I(r.randint(1, 9)), self.int_expr(sc, 1)]))]
@@ -630,7 +705,7 @@ class Gen:
             seq = ("call", ("fn", pf + "pairs"), [I(r.randint(0, 2)), I(r.randint(1, 9))])
         for x in xs:
             sc2[x] = "int"
-        ctx2 = dict(ctx, loop=True, labels=ctx.get("labels", []) + ([lab] if lab else []))
+        ctx2 = dict(ctx, loop=True, inrf=True, labels=ctx.get("labels", []) + ([lab] if lab else []))
         body = self.stmts(sc2, fi, depth - 1, 3, ctx2)
         if r.random() < 0.5:
             body.insert(0, ("print", [("str", "rf")] + [V(x) for x in xs]))
